@@ -62,6 +62,9 @@ func (v *ExecView) listeners(pol, l int) []*Event {
 
 func analyse(res *RunResult) []*ExecView {
 	sc := res.Sc
+	if sc.Adapter != nil {
+		return nil
+	}
 	n := sc.numExecs()
 	views := make([]*ExecView, n+1)
 	for id := 1; id <= n; id++ {
